@@ -432,6 +432,12 @@ func (pnf *PrevNextFinder) getPageDiff(pageURL, linkHref string, skip int) (int,
 		}
 	}
 
+	// The numbers to compare start where the digits start, not where the first
+	// different digit is: page 10 and page 11 are the numbers 10 and 11, not 0 and 1.
+	for commonLen > skip && pageURL[commonLen-1] >= '0' && pageURL[commonLen-1] <= '9' {
+		commonLen--
+	}
+
 	var urlAsNumber int
 	if str := rxNumberAtStart.FindString(pageURL[commonLen:]); str != "" {
 		urlAsNumber, _ = strconv.Atoi(str)
